@@ -16,6 +16,20 @@ Import ListNotations.
 Theorem C01_no_panic : forall (e : entry) (ts : list tok), run Repaired e ts <> OPanic.
 Proof. exact run_no_panic. Qed.
 
+(** The explicit recursion fuel the entry points give themselves (input length + 1) always
+    suffices: the model's recursion depth is at most linear in the number of tokens, and every
+    entry point ends with a verdict. *)
+Theorem C01_fuel_sufficient : forall (vr : variant) (e : entry) (ts : list tok), run vr e ts <> OFuel.
+Proof. exact run_no_fuel. Qed.
+
+Corollary C01_verdict :
+  forall (e : entry) (ts : list tok),
+    run Repaired e ts = OOk \/ run Repaired e ts = OErr \/ run Repaired e ts = OUnk.
+Proof.
+  intros e ts. pose proof (run_no_panic e ts). pose proof (run_no_fuel Repaired e ts).
+  destruct (run Repaired e ts); auto; contradiction.
+Qed.
+
 (** The same model with the code as it was at the snapshot does panic ([ADD ro +1],
     bare [NONBLOCKING], [MOVE ro -9223372036854775808]): [Panic] is a reachable outcome of the
     model, not a vacuous one. *)
